@@ -76,6 +76,9 @@ def find(t, pred):
 
 
 def run(ctx, rep):
+    # the per-day computation is a function of the request alone (C20's R20.5): a value carried from one day of the range to the next (a cache keyed on less than the whole request) makes the stored result differ from the single-date result
+    from . import shared as _sh, c20 as _c20h
+    _sh.include(ctx, rep, _c20h.run, {'R20.5'}, why='no thread-local, static or lock-protected state on the computation path')
     rep.explanation = (
         'Decides structural clauses: the day count is (end - start).num_days() + 1 and its signed->usize cast cannot see a '
         'negative value (none when the end precedes the start); the range API iterates start.iter_days() limited by that count, '
